@@ -9,19 +9,26 @@ def add(pid, text, note, technique, category="proof", design=None):
                        design=design or ("DESIGN.md section 4, " + pid))
 
 add("C14",
-    "Coq theorems (i) over the VersionNum model: next = number+1 with the same width, refusal past the width's maximum, display/parse round "
-    "trip, constant name length, outside the recorded overflow class; (ii) over a multi-client model (Model/MultiClient.v: one main "
-    "repository, any number of clients with private staging, objects with a lineage token; New / Stage / Commit / ResetAll / Purge as the "
-    "code: write_new_object refuses an existing id, write_new_version compares head numbers), for ALL interleavings of any number of "
-    "clients and objects: a successful commit appends exactly the next version (state = staged state, earlier versions unchanged), per "
-    "lineage the version list only grows by push-back, a stale commit is refused and changes nothing (staged changes kept), no silent "
-    "merge, staging is refused at the width's maximum; all outside the exact known class `recreated lineage` (witness inside). "
-    "Correspondence: VersionNum differential (debug build); 2 and 3 real clients (library handles and CLI with distinct -s directories) "
-    "over exhaustive interleavings of 2 clients x <= 2 operations, sampled longer ones, scenarios with purge + re-create, widths 0/1/2/3/11: "
-    "result class, main state and all staged inventories compared inside Coq after every step; model-free oracle (changed version "
-    "directory, skipped/repeated number, commit accepted on a stale base, refused commit changed something, object invalid).",
-    "Trusted: Coq kernel, Model/VersionNum.v, Model/MultiClient.v, harness and driver. Known findings: vnum-overflow (widths > 10, u32::MAX), "
-    "recreated-lineage.",
+    "Coq theorems (i) over the VersionNum model for ALL widths and numbers: next = number+1 with the same width, refusal past "
+    "min(u32::MAX, 10^(w-1)-1), never a panic, debug = release, display/parse round trip, constant name length; (ii) over a multi-client "
+    "model (Model/MultiClient.v: one main repository, any number of clients with private staging; a committed version = (metadata token, "
+    "state), objects carry width and a configuration token; New / Stage / Commit / ResetAll / Purge as the code: write_new_object refuses "
+    "an existing id, write_new_version compares head numbers, width / digest algorithm / content directory, and every existing version "
+    "with the staged copy's), for ALL interleavings of any number of clients and objects, unconditionally: an accepted commit changes only "
+    "that id, appends exactly one version with head+1 and keeps every earlier version's metadata and state; a stale commit, a commit "
+    "based on foreign versions or on another configuration is refused and changes nothing (staged changes kept); staging is refused at "
+    "the width's maximum; under the hypothesis that commit metadata never repeats (what Local::now() gives): per lineage the version list "
+    "only grows by push-back, a staged copy cloned from another lineage is always refused, no silent merge. Correspondence: VersionNum "
+    "differential in a debug AND a release build; 2 and 3 real clients (library handles and CLI with distinct -s directories) over "
+    "exhaustive interleavings of 2 clients x <= 2 operations, sampled longer ones, scenarios with purge + re-create (other states, same "
+    "states, same explicit metadata, other width / algorithm / content directory), widths 0..200000: result class, main state and all "
+    "staged inventories compared inside Coq after every step; model-free oracle (changed version directory, skipped/repeated number, "
+    "commit accepted on a stale base, refused commit changed something, object invalid).",
+    "Trusted: Coq kernel, Model/VersionNum.v, Model/MultiClient.v, harness and driver. No known finding is left: the u32 overflow (476b184), "
+    "the Display panic for paddings above 65535 (d5a9e2d) and commits onto a re-created lineage (e1679ed, 5c18ef1) were repaired and are "
+    "must-pass inputs. A re-created object with identical states AND identical explicit metadata and configuration is indistinguishable "
+    "from the old one; accepting a commit there is proved harmless (C14_commit_keeps_history). NAME_MAX (widths above 254 are refused by "
+    "the file system) is not modelled.",
     "machine-checked proof in Coq (arith + invariant over all interleavings) + exhaustive/sampled interleavings of real clients")
 
 
